@@ -333,7 +333,7 @@ def doSendSub (st : RouteState) (app : RouteApp) (o : Origin) (rest : List Strin
         ({ app := some { app with store := store }, log := st.log ++ recs }, showRes res)
 
 def knownOps : List String :=
-  ["send-top", "send-sub", "send-sub-from", "query", "sudo", "records", "block", "storage-dump", "init-count", "api-prefix", "wasm-gen"]
+  ["send-top", "send-sub", "send-sub-from", "query", "query-sub", "sudo", "records", "block", "storage-dump", "init-count", "api-prefix", "wasm-gen"]
 
 def stepRoute (st : RouteState) (toks : List String) : RouteState × String :=
   match toks with
@@ -363,6 +363,29 @@ def stepRoute (st : RouteState) (toks : List String) : RouteState × String :=
         | none => (st, "bad-op")
         | some o => doSendSub st app o rest
       | "send-sub-from", [] => (st, "bad-op")
+      | "query-sub", origin :: items =>
+        -- the contract issues the queries one after the other from inside one `execute`; it ignores the answers,
+        -- so the call succeeds whatever the modules say; every query reaches its module (one record each)
+        if origin != "native" && origin != "lifted" then (st, "bad-op") else
+        match parseItemsRaw items with
+        | none => (st, "bad-op")
+        | some [] => (st, "bad-op")
+        | some raw =>
+          match raw.mapM (fun (k, h) => (queryKindOf k).map fun k' => (k', h)) with
+          | none => (st, "bad-op")
+          | some l =>
+            if origin == "lifted" && l.any (fun p => p.1 == .custom) then (st, "bad-op") else
+            let triggerOk : Bool :=
+              (match route .harness Gen.Router.execTable .wasm with
+               | .call .wasm .execute _ true => true
+               | _ => false)
+            if !triggerOk then (st, "model-unknown") else
+            let rs := l.map fun (k, h) => dispatch app Gen.Router.queryTable Kind.parts ⟨k, "-", h⟩ app.store
+            let recs := rs.flatMap fun r => r.2.2
+            if rs.any (fun r => match r.1 with | .panic => true | _ => false) then ({ st with log := st.log ++ recs }, "panic")
+            else if rs.any (fun r => match r.1 with | .unknown => true | _ => false) then (st, "model-unknown")
+            else ({ st with log := st.log ++ recs }, "ok")
+      | "query-sub", [] => (st, "bad-op")
       | "query", [k, h] =>
         match unhex h with
         | none => (st, "bad-op")
